@@ -23,6 +23,18 @@ CHECKS = {
    design="5 (C05), 4.2",
    note="trusts the GC header hooks (freed flag, quarantine) and that quarantine does not change reachability; program-level GC-stress replay of the Lang corpus is part of the C01 family of checks",
    technique="TLC model checking of Heap.tla + replay of TLC walks under forced GC schedules with freed-block poisoning"),
+ "C01": dict(
+   level="model_checking",
+   text="Lang.tla is a type-directed generator of closed well-typed programs (closures, partial and over-application, recursive functions, records incl. update, tuples, variants, arrays, nested / literal / partial patterns, short-circuit operators, 64-bit overflow through a symbolic integer domain, host effects) together with the documented strict semantics as a recursive evaluator; TLC checks the model's own type soundness on every generated program and emits (program, outcome, effect log); each program is run through the real pipeline with optimisation off and on and value / failure class / effect log are compared. Exhaustive to AST size 4-5 for the whole grammar, 6-7 for focused production sets, random deeper programs by TLC simulation.",
+   design="5 (C01), 4.8",
+   note="the model is the oracle: its evaluation order and failure classes were calibrated against the book and probes; do/seq blocks and implicit-argument dispatch beyond the prelude's overloaded operators are not generated; programs whose exact result leaves the symbolic integer domain are not emitted",
+   technique="TLC enumeration + in-model evaluation (Lang.tla), replay of every behaviour into the real compiler+VM"),
+ "C04": dict(
+   level="model_checking",
+   text="Same generator, restricted to programs with host effects or dead bindings (let _ = e, unused let, transitively unused, unused field of a fresh record, unused component of a fresh tuple). OptModel in Lang.tla computes the outcome of dropping every closed subset of the dead bindings; each program is compiled with optimisation off and on and the optimised run must equal the model, or differ only by a dropped binding whose right-hand side is built-in arithmetic.",
+   design="5 (C04), 4.8",
+   note="effects are observed as the ordered log of host.eff calls (identifier callee and module-field callee); the model decides which differences are explained by dropping which bindings",
+   technique="TLC enumeration + OptModel (Lang.tla), differential replay optimize on/off against the model"),
 }
 NOT_BUILT = "check not built yet (work in progress; see DESIGN.md section 5)"
 NA = {}
